@@ -53,6 +53,9 @@ type Cfg struct {
 	Prior bool `json:"prior,omitempty"`
 	// EarlyReset: ResetAll is called on the new service before any handler is registered.
 	EarlyReset bool `json:"earlyReset,omitempty"`
+	// LateKinds: a handler with these kinds is registered while the service is running, before
+	// the ResetAll call: what is announced stays what the service is subscribed to.
+	LateKinds []string `json:"lateKinds,omitempty"`
 }
 
 // HSpec is one handler of a split registration.
@@ -369,10 +372,17 @@ func check(c Cfg) (msg string, nontrivial bool) {
 	if set(reset.Resources) != set(wantRes) || set(reset.Access) != set(wantAcc) {
 		return fmt.Sprintf("system.reset on start lists resources %v access %v, the owned patterns are %v / %v", reset.Resources, reset.Access, wantRes, wantAcc), nontrivial
 	}
+	if len(c.LateKinds) > 0 {
+		sv.s.Handle("late9.$id", kindOpts(c.LateKinds)...)
+	}
 	sv.s.ResetAll()
 	pubs = sv.conn.Published("system.reset")
 	if len(pubs) != 2 || string(pubs[1].Data) != string(pubs[0].Data) {
-		return fmt.Sprintf("ResetAll published %v", pubs), nontrivial
+		late := ""
+		if len(c.LateKinds) > 0 {
+			late = fmt.Sprintf(" (a handler with %v was registered after the start; the subscriptions are those made on start)", c.LateKinds)
+		}
+		return fmt.Sprintf("ResetAll published %v%s", pubs, late), nontrivial
 	}
 	return "", nontrivial
 }
@@ -407,6 +417,9 @@ func genCfg() *rapid.Generator[Cfg] {
 	return rapid.Custom(func(t *rapid.T) Cfg {
 		c := Cfg{Name: rapid.SampledFrom([]string{"", "svc", "svc", "a.b", "s\"q", "b\\c", "widget", "get.call"}).Draw(t, "name")}
 		c.EarlyReset = rapid.IntRange(0, 4).Draw(t, "earlyReset") == 0
+		if rapid.IntRange(0, 3).Draw(t, "late") == 0 {
+			c.LateKinds = rapid.SampledFrom([][]string{{"access"}, {"get"}, {"call"}, {"auth", "access"}, {"new"}}).Draw(t, "lateKinds")
+		}
 		c.Prior = rapid.IntRange(0, 3).Draw(t, "prior") == 0
 		c.Explicit = rapid.IntRange(0, 2).Draw(t, "explicit") > 0
 		if c.Explicit {
